@@ -631,7 +631,9 @@ def run_vm(run, cases, count=True):
             if io.startswith("err "):
                 m["impl_err"] = io[4:]
             else:
-                _, bi, pi, n = io.split()
+                _, bi, pi, n, sraw, strans = io.split()
+                if call["out"] and (strans if call["transform"] else sraw) == "raises":
+                    m["impl_err"] = "TypeError (np.save arguments)"
                 o2, W1, W2 = fd(int(bi), int(pi), int(n))
                 m["impl_i"] = len(ops)
                 ops.append(op_vmat("impl", int(n), ndim, call["transform"], delt, o2, W1, W2, M))
